@@ -28,6 +28,14 @@ claimed.update({
    text="One deviating participant per run: every message type and bytes field (list elements by index class), alteration kinds +1 / random / value from another party / removed, whole-message mirror, wrong secret, duplicated pre-parameters, at three positions, on all six protocols; per case the honest parties' outputs (validity, equality), culprits (soundness; completeness for covered fields) and, in resharing, erased-old-versus-emitted-new are judged. FaultsMC.tla yields the design-level counterexample for the ECDSA key-loss finding and none for EdDSA.",
    note="single deviator, reliable broadcast, honest abort; table of uncovered fields in props/c05.go; known findings in known_findings.json", ref="§4.2, §6 C05"),
 })
+claimed.update({
+ "C06": dict(cat="fault_enumeration", tech="spec-derived message/field tables x boundary values, crafted relations, mutated wire bytes, sender indices, deliveries after abort, replayed on real runs in journalled child processes + direct calls of every exported verifier/decoder by reflection over their arguments",
+   text="Every protocol message type and bytes field is set to boundary values (zero byte, empty, 1, q-1, q, q+1, 2q, N-1, N, N+1, N^2, 2^k, oversized), flipped, lists shortened/extended/emptied; commitments are crafted to open to off-curve, identity, torsion points and wrong arities; theta shares summing to zero; random/mutated/empty/wrong-type wire bytes; out-of-range sender indices; deliveries continue after an abort. Each case runs in a child process whose journal attributes a panic in any goroutine or a hang (confirmed by re-running the case alone, goroutine dump must show a library frame) to the case. Exported verifiers/decoders are called directly with the same value classes in every argument and proof component.",
+   note="negative big.Int arguments and corrupted caller-owned key structs are not explored; the Engine model's Deliver is total (accept / ignore / error), a crash is a trace no spec action explains", ref="§6 C06, §7"),
+ "C09": dict(cat="model_checking", tech="Lock.tla model-checked by TLC + real concurrent runs under the Go race detector whose critical-section log (mutex hook, build tag verif) is validated against EngineConc_Trace.tla",
+   text="Start, UpdateFromBytes (several goroutines per party, random order/yields, optionally invalid input in parallel) and WaitingFor of every party run concurrently in a -race build on all six protocols; violations: race reports with a library frame, broken mutual exclusion seen by the hook, not exactly one result per party / failing C01-C04 oracle, or a critical-section log that TLC cannot explain as PassDeliver/Start/read steps of the engine spec. Lock.tla explores all interleavings of updater/reader/starter threads on the model (NoUnsyncAccess, MutualExclusion, EndOnce, SameResult, Termination).",
+   note="real-code interleavings are seeded-random, not exhaustive; hook adds no synchronisation; known finding: unlocked WrapError path", ref="§4.4, §6 C09"),
+})
 not_yet = {}
 props = [json.loads(l) for l in open('/verif/properties.jsonl')]
 extra = json.load(open('/verif/manifest_extra.json')) if __import__('os').path.exists('/verif/manifest_extra.json') else {}
